@@ -18,7 +18,7 @@ CONSTANTS
   ConstNames = {}
   CallMaxExtra = 0
   CallExtraKw = {}
-  CallsWithReq = FALSE
+  CallsWithReq = TRUE
   DevKwEval = FALSE
 CONSTRAINT ExportConstraint
 CHECK_DEADLOCK FALSE
